@@ -20,6 +20,7 @@ package c02
 import (
 	"bytes"
 	"context"
+	"encoding/json"
 	"fmt"
 	"os"
 	"runtime"
@@ -84,6 +85,11 @@ type Case struct {
 	// Resched: after the job is finished, schedule the same name again.
 	Resched bool `json:"resched"`
 	Reps    int  `json:"reps"`
+}
+
+func mustJSON(v any) []byte {
+	b, _ := json.Marshal(v)
+	return b
 }
 
 func us(v int64) time.Duration { return time.Duration(v) * time.Microsecond }
@@ -726,9 +732,6 @@ func judgeCommon(c *Case, o *obs) []verdict {
 			vs = append(vs, verdict{"panic:" + r.kind, "scheduler call panicked: " + r.panicked})
 		}
 	}
-	if o.hung != "" {
-		vs = append(vs, verdict{"call-did-not-return:" + o.hung, "a scheduler call did not return within 10s"})
-	}
 	return vs
 }
 
@@ -1006,10 +1009,20 @@ func check(t ev.TB, c *Case) {
 		if err != nil {
 			t.Fatalf("harness problem: %v", err)
 		}
-		if !o.settled && o.hung == "" {
-			// the scheduler's goroutines are still there after the ceiling: judge what
-			// was observed, note it
+		if !o.settled || o.hung != "" {
+			// The goroutine count did not come back within the ceiling.  Whatever the
+			// reason (a goroutine of the scheduler that is stuck, or a machine that
+			// froze this process), nothing can be concluded from this repetition and
+			// the idle baseline is gone: record the goroutine dump, give the goroutines
+			// another minute, and go on with the next program or give up.
+			buf := make([]byte, 1<<18)
+			buf = buf[:runtime.Stack(buf, true)]
 			ev.Label("settle-ceiling-hit")
+			ev.Inconclusive(fmt.Sprintf("goroutines not back at baseline %d (or call %q not returned) after %v in repetition %d of %s; %s\n%s", base, o.hung, settleCeiling, rep, string(mustJSON(c)), describe(o), buf))
+			if !waitGoroutines(base, 60*time.Second) {
+				t.Fatalf("harness problem: goroutines of a repetition never finished (see inconclusive note): %s", buf)
+			}
+			break
 		}
 		var vs []verdict
 		if c.Periodic {
@@ -1031,11 +1044,6 @@ func check(t ev.TB, c *Case) {
 				firstDetail[v.sig] = fmt.Sprintf("repetition %d: %s; %s", rep, v.detail, describe(o))
 			}
 			fails[v.sig]++
-		}
-		if !o.settled || o.hung != "" {
-			// goroutines of this repetition may still be around: the baseline is
-			// not valid any more
-			break
 		}
 	}
 	ev.LabelN("repetitions", int64(judged))
